@@ -14,6 +14,7 @@ Filters == {NoFilter, F("Exchanges", <<0>>), F("Exchanges", <<1>>), F("Instrumen
 
 MCEvents ==
        {E0("Market", ExOf(i), i) : i \in {0, 2, 4}}
+  \cup {E0("MarketNoPrice", ExOf(i), i) : i \in {0, 4}}
   \cup {E0(a, e, 0) : a \in {"MarketReconnecting", "AccountReconnecting"}, e \in {0, 1}}
   \cup {Ev("OrderSnap", ExOf(i), i, "c1", k, "-", 0, FALSE, "-", <<>>, NoFilter) : i \in {0, 4}, k \in {"Open", "Inactive"}}
   \cup {Ev("CancelResp", 0, 0, "c1", "", "-", 0, ok, "-", <<>>, NoFilter) : ok \in BOOLEAN}
